@@ -70,7 +70,7 @@ HARNESSES = [
         ("k_arm_code_lengths_hufflen", ["C03", "C04", "C05", "C07"], ["arm ReadHufflenTableCodeSize", "read_bits"],
          "B(input<=8, output<=32 bytes; complete otherwise)", "init_tree replaced by a contract model"),
         ("k_decompress_fast_bounded", ["C03", "C04", "C05", "C08"], ["decompress_fast", "fill_bit_buffer", "InputWrapper::read_u32_le"],
-         "B(at most 3 symbols before end-of-block, input<=18, output<=320 bytes)", "HuffmanTable::lookup, apply_match, transfer replaced by contract models"),
+         "B(at most 5 symbols before end-of-block, input<=18, output<=320 bytes)", "HuffmanTable::lookup, apply_match, transfer replaced by contract models"),
       )],
     # ---- K-inflate (streaming wrapper against the M-decompress contract model) ----
     H("k_inflate_protocol", "K-inflate", ["C04", "C05", "C06", "C07", "C09", "C13"], fns=["inflate", "inflate_loop", "push_dict_out", "InflateState::new"],
